@@ -10,7 +10,13 @@ SURPLUS_OUT = {'byte': ('Z', 0), 'char': ('Z', 0), 'short': ('Z', 0), 'three': (
                'bytes': ('Bytes', []), 'fixed': ('Str', []), 'fixedenc': ('Str', []), 'remaining': ('Z', 0)}
 
 
-def write_chunks(wmod, chunks):
+def write_chunks(wmod, chunks, pollute=False):
+    if pollute:
+        # the process has already written the same strings elsewhere with sanitisation off (other writers, other packets)
+        other = wmod.EoWriter()
+        for its in chunks:
+            for it in its:
+                apply_wop(other, item_wop(it))
     w = wmod.EoWriter()
     w.string_sanitization_mode = True
     for i, its in enumerate(chunks):
@@ -21,8 +27,12 @@ def write_chunks(wmod, chunks):
     return list(w.to_bytearray())
 
 
-def read_chunks(rmod, data, plans):
-    r = rmod.EoReader(bytes(data))
+def read_chunks(rmod, data, plans, prefix=None):
+    if prefix:
+        # a reader over the same bytes obtained as a slice of a longer buffer (e.g. packet body after its header)
+        r = rmod.EoReader(bytes(prefix + data + [0xFF, 7])).slice(len(prefix), len(data))
+    else:
+        r = rmod.EoReader(bytes(data))
     r.chunked_reading_mode = True
     outs = []
     for p in plans:
@@ -77,14 +87,15 @@ def run(tier):
     nprefix = nsurplus = narb = 0
     for t in range(n):
         chunks = [gen_chunk(rng) for _ in range(rng.randrange(1, 7))]
-        data = write_chunks(wmod, chunks)
+        data = write_chunks(wmod, chunks, pollute=(t % 3 == 1))
         std = [std_plan(rng, its) for its in chunks]
         plans = [p for p, _ in std]
         arbitrary = t % 4 == 3
+        prefix = [[], [1, 2], [0xFF, 3, 0xFF], [5]][t % 4] if t % 2 else None
         if arbitrary:   # arbitrary reads instead of the matching ones
             plans = [[rng.choice(SURPLUS) for _ in range(rng.randrange(0, 7))] for _ in chunks]
             narb += 1
-        outs = read_chunks(rmod, data, plans)
+        outs = read_chunks(rmod, data, plans, prefix)
         cases.append(((chunks, plans), (data, outs)))
         if C.violations:
             continue
@@ -105,7 +116,7 @@ def run(tier):
         # (3) isolation: what chunk k's plan sees does not depend on the other chunks' plans
         k = rng.randrange(len(chunks))
         alt = [plans[i] if i == k else rng.choice([[], [item_rop(it) for it in chunks[i]], [rng.choice(SURPLUS) for _ in range(9)]]) for i in range(len(chunks))]
-        outs2 = read_chunks(rmod, data, alt)
+        outs2 = read_chunks(rmod, data, alt, prefix)
         if outs2[k] != outs[k] and not C.violations:
             C.violation(f"chunk #{k} of {chunks}: plan {plans[k]} returned {outs[k]} under plans {plans} but {outs2[k]} under plans {alt}",
                         dict(unit='eo_reader', input=dict(chunks=[[list(i) for i in c] for c in chunks], plans=[[list(o) for o in q] for q in plans], alt=[[list(o) for o in q] for q in alt])))
